@@ -7,6 +7,7 @@ import random
 
 from hsverif.c12_common import (
     DelayScript,
+    fault_free_script,
     Instant,
     Simulation,
     at,
@@ -39,12 +40,17 @@ MSG = [
 
 
 def gen_election(rng: random.Random, tier: str) -> dict:
-    n = rng.choice([3, 3, 4, 5])
+    n = rng.choice([3, 4, 4, 5, 5])
     names = [f"e{i}" for i in range(n)]
     to = rng.choice([0.5, 1.0, 2.0])
     hb = to * rng.choice([0.1, 0.25, 0.5])
     strategy = rng.choice(["bully", "bully", "ring", "ring", "randomized"])
-    script = random_script(rng, names, MSG, timeout_scale=to * rng.choice([0.05, 0.3, 1.0]))
+    fault_free = rng.random() < 0.25
+    if fault_free:
+        hi = to * rng.choice([0.002, 0.01, 0.05])
+        script = fault_free_script(rng, hi / 10, hi)
+    else:
+        script = random_script(rng, names, MSG, timeout_scale=to * rng.choice([0.05, 0.3, 1.0]))
     views = {}
     adds = []
     mode = rng.choice(["full", "full", "partial", "join"])
@@ -68,14 +74,41 @@ def gen_election(rng: random.Random, tier: str) -> dict:
             views[x] = list(names) if x == joiner else [y for y in names if y != joiner]
             if x != joiner:
                 adds.append({"at": round(t_join + rng.choice([0.0, rng.uniform(0, to)]), 6), "node": x, "member": joiner})
+    # The ORDER in which a participant lists its members (dict insertion order of `members`) is part of the input:
+    # same set, per-node permuted order ("own rack first", self first, shuffled).
+    order = rng.choice(["same", "same", "shuffled", "shuffled", "self-first", "rack", "rack"])
+    if order == "shuffled":
+        for x in names:
+            rng.shuffle(views[x])
+    elif order == "self-first":
+        for x in names:
+            views[x] = [x] + [y for y in views[x] if y != x]
+    elif order == "rack":
+        cut = rng.randrange(1, n)
+        racks = [names[:cut], names[cut:]]
+        if rng.random() < 0.5:
+            rng.shuffle(racks[0])
+            rng.shuffle(racks[1])
+        for x in names:
+            own = racks[0] if x in racks[0] else racks[1]
+            other = racks[1] if own is racks[0] else racks[0]
+            lst = [x] + [y for y in own if y != x] + list(other)
+            views[x] = [y for y in lst if y in views[x]]
+    start_pattern = rng.choice(["staggered", "staggered", "concurrent", "near-concurrent"])
+    base = round(rng.uniform(0.0, to), 6)
     starts = []
     for x in names:
-        t0 = round(rng.uniform(0.0, to), 6)
+        if start_pattern == "concurrent":
+            t0 = base
+        elif start_pattern == "near-concurrent":
+            t0 = round(base + rng.uniform(0.0, 0.02 * to), 6)
+        else:
+            t0 = round(rng.uniform(0.0, to), 6)
         if mode == "join" and x == joiner:
             t0 = t_join
         starts.append({"node": x, "at": t0})
     crashes = []
-    if rng.random() < 0.35:
+    if not fault_free and rng.random() < 0.35:
         for x in rng.sample(names, rng.choice([1, 1, 2])):
             c_at = round(rng.uniform(0.5 * to, 6 * to), 6)
             crashes.append({"node": x, "at": c_at, "restart_at": round(c_at + rng.uniform(0.5 * to, 4 * to), 6) if rng.random() < 0.6 else None})
@@ -90,7 +123,10 @@ def gen_election(rng: random.Random, tier: str) -> dict:
         "adds": sorted(adds, key=lambda a: a["at"]),
         "starts": starts,
         "crashes": crashes,
-        "partitions": gen_partitions(rng, names, 0.5 * to, 6 * to) if rng.random() < 0.3 else [],
+        "partitions": gen_partitions(rng, names, 0.5 * to, 6 * to) if not fault_free and rng.random() < 0.3 else [],
+        "order": order,
+        "start_pattern": start_pattern,
+        "fault_free": fault_free,
         "gseed": rng.randrange(1 << 30),
         "end": round(12 * to, 6),
     }
